@@ -516,7 +516,7 @@ theorem toF_ext (a : A) (now : ℚ) (ulog : List ℚ) (x : ℚ)
 
 
 /-- the LTS admission of the arriving packet: `admitRed` computes the program's average and decision -/
-theorem admit_eq (hi : AInv c sizes0 gaps0 a q.time vs) (hn : a.pend = none) (p : Pkt ℚ) :
+theorem admission_eq (hi : AInv c sizes0 gaps0 a q.time vs) (hn : a.pend = none) (p : Pkt ℚ) :
     Port.admitPkt (cfg c)
         { byteSize := a.bytes, received := a.recv, dropped := a.dropped, busy := a.busy, busySize := a.bsz, avg := a.avg }
         q.time a.items.length p =
@@ -593,7 +593,7 @@ theorem stepOK_srcAcc (hi : AInv c sizes0 gaps0 a q.time vs) (hq : IsMin a q) (u
     have : (SPhase.wait n z gaps sizes us q).mu = 4 * gaps.length + 5 := rfl
     simp [this]; omega
   · have hdraw := pk_new (c := c) (sizes0 := sizes0) (usV vs) (uAtt c (avgNew c a) us) n (by rw [hi.ulen, hnr])
-    have hadm := admit_eq hi hn (pk c sizes0 (usV vs ++ [uAtt c (avgNew c a) us]) ((n : Int) + 1))
+    have hadm := admission_eq hi hn (pk c sizes0 (usV vs ++ [uAtt c (avgNew c a) us]) ((n : Int) + 1))
     rw [hdraw, hacc] at hadm
     simp only [Bool.false_eq_true, if_false] at hadm
     have hsize : (pk c sizes0 (usV vs ++ [uAtt c (avgNew c a) us]) ((n : Int) + 1)).size = z := hsz
@@ -671,7 +671,7 @@ theorem stepOK_srcDrop (hi : AInv c sizes0 gaps0 a q.time vs) (n z : Nat) (gaps 
     have : (SPhase.wait n z gaps sizes us q).mu = 4 * gaps.length + 5 := rfl
     simp [this]; omega
   · have hdraw := pk_new (c := c) (sizes0 := sizes0) (usV vs) (uAtt c (avgNew c a) us) n (by rw [hi.ulen, hnr])
-    have hadm := admit_eq hi hn (pk c sizes0 (usV vs ++ [uAtt c (avgNew c a) us]) ((n : Int) + 1))
+    have hadm := admission_eq hi hn (pk c sizes0 (usV vs ++ [uAtt c (avgNew c a) us]) ((n : Int) + 1))
     rw [hdraw, hdrop] at hadm
     simp only [if_true] at hadm
     simp only [usV_append, usV_arr, outsV_arr, List.map_nil]
